@@ -55,12 +55,14 @@ fn under_inverse(
     {
         return cached;
     }
-    let res = under_inverse_impl(input, g_sig, inverse, asm);
-    CACHE.with(|cache| {
-        cache
-            .borrow_mut()
-            .insert((hash, g_sig, inverse), res.clone())
-    });
+    let (res, keep) = cacheable(|| under_inverse_impl(input, g_sig, inverse, asm));
+    if keep {
+        CACHE.with(|cache| {
+            cache
+                .borrow_mut()
+                .insert((hash, g_sig, inverse), res.clone())
+        });
+    }
     res
 }
 
